@@ -14,6 +14,9 @@ import PsdVerif.Lemmas.Clip
 import PsdVerif.Lemmas.ClipState
 import PsdVerif.Generated.ClipModes
 import PsdVerif.Generated.ClipCurrent
+import PsdVerif.Model.ClipCompositor
+import PsdVerif.Lemmas.ClipCompositor
+import PsdVerif.Generated.ClipCompositor
 
 namespace PsdVerif.C15
 open PsdVerif PsdVerif.Clip PsdVerif.Clip.Spec
@@ -420,5 +423,61 @@ example : (({ Generated.ClipCurrent.table with rows := [⟨"Layer.blend_mode.set
 example : levels docA.tree = [docA.tree] := rfl
 
 end KeptCurrent
+
+/-! ### Part 4: the compositor honours the relation (gate and group box; pixels are C11's subject) -/
+section Compositor
+open PsdVerif.ClipComp
+
+/-- What the model assumes about the compositor is what `composite/__init__.py` says now: the early returns of
+    `Compositor.apply` in order (the last is the gate), `_apply_clip_layers` composites exactly `layer.clip_layers`, each
+    with `clip_compositing=True`, it is called for every group and every object that has clip layers, and `_bbox`
+    counts EVERY child the layer filter accepts (no other condition on the child; only empty boxes are dropped). -/
+theorem compositor_gate_tied :
+    Generated.ClipCompositor.applySkips =
+      ["self._layer_filter is not None and (not self._layer_filter(layer))",
+       "isinstance(layer, AdjustmentLayer)",
+       "_intersect(self._viewport, self._bbox(layer)) == (0, 0, 0, 0)",
+       "not clip_compositing and layer.clipping_layer and layer._has_clip_target"] ∧
+    Generated.ClipCompositor.clipIter = "layer.clip_layers" ∧
+    Generated.ClipCompositor.clipCalls = ["compositor.apply(clip_layer, clip_compositing=True)"] ∧
+    Generated.ClipCompositor.clipCallers =
+      ["_get_group: if layer.has_clip_layers()", "_get_object: if layer.has_clip_layers()"] ∧
+    Generated.ClipCompositor.bboxCachedWhen =
+      "not isinstance(layer, GroupMixin) or isinstance(layer, Artboard) or self._layer_filter is None or (self._layer_filter is Layer.is_visible) -> return layer.bbox" ∧
+    Generated.ClipCompositor.bboxIter = ["layer", "boxes"] ∧
+    Generated.ClipCompositor.bboxChildTests = ["self._layer_filter(child)", "box != (0, 0, 0, 0)"] :=
+  ⟨rfl, rfl, rfl, rfl, rfl, rfl, rfl⟩
+
+/-- The gate: in the ordinary pass over a group's children a layer is left out exactly when it is a clipping layer
+    that has a target; a clipping layer with NO target is drawn there like an ordinary layer, and so is every
+    non-clipping layer; through a base (`clip_compositing=True`) nothing is left out by the gate. -/
+theorem compositor_honours_gate (clipping hasTarget : Bool) :
+    (drawnOrdinary clipping hasTarget = false ↔ (clipping = true ∧ hasTarget = true)) ∧
+    drawnOrdinary clipping false = true ∧ drawnOrdinary false hasTarget = true ∧
+    drawnThroughBase clipping hasTarget = true := by
+  cases clipping <;> cases hasTarget <;> simp [drawnOrdinary, drawnThroughBase, skipped]
+
+/-- The box a group is drawn in under ANY caller-supplied filter spans the box of every child the filter accepts,
+    whatever its clipping flag: the group's viewport never crops or skips a base-less clipping layer (nor any other
+    accepted child) that has something to draw. -/
+theorem group_box_spans_accepted {α : Type} (f : α → Bool) (box : α → Box) (kids : List α) (k : α)
+    (hk : k ∈ kids) (hf : f k = true) (hb : box k ≠ Box.zero) :
+    (groupBox f box kids).spans (box k) := by
+  unfold groupBox
+  apply unionBoxes_spans _ _ _ hb
+  exact List.mem_map.mpr ⟨k, List.mem_filter.mpr ⟨hk, hf⟩, rfl⟩
+
+/-- Necessity of the last clause of the tie: a union that ALSO requires "not a clipping layer" of the children
+    crops a base-less clipping layer that sticks out of its siblings. -/
+theorem group_box_filtering_clipping_crops :
+    let kids : List (Bool × Box) := [(true, ⟨0, 0, 1, 9⟩), (false, ⟨2, 2, 4, 4⟩)]
+    ¬ (groupBox (fun k => !k.1) Prod.snd kids).spans ⟨0, 0, 1, 9⟩ ∧
+    (groupBox (fun _ => true) Prod.snd kids).spans ⟨0, 0, 1, 9⟩ := by
+  decide
+
+example : ∃ k ∈ [(true, (⟨0, 0, 1, 9⟩ : Box))], (fun _ : Bool × Box => true) k = true ∧ k.2 ≠ Box.zero :=
+  ⟨_, List.mem_singleton.mpr rfl, rfl, by decide⟩
+
+end Compositor
 
 end PsdVerif.C15
